@@ -16,11 +16,12 @@ func Run(c *vh.Ctx) {
 		Profile: func(r *rand.Rand) scen.Profile {
 			return scen.Profile{
 				Steps: 50 + r.Intn(60), Cluster: r.Intn(4) == 0, Delegated: []float64{0, 0.3, 0.6}[r.Intn(3)], MaxRevisions: 1 + r.Intn(2),
+				Sliced: r.Intn(3) == 0, SliceSeed: r.Int63(),
 				Weights: scen.WeightsWith(map[string]int{"workload": 30, "reconcile": 45, "adv-create": 1, "adv-reown": 1, "adv-relabel": 1, "adv-edit": 2, "adv-delete": 2, "adv-recreate": 1, "user-archive": 0, "user-delete": 0, "user-pause": 1, "user-unpause": 2}),
 				CPs:     []string{"", "None", "IfNoController"},
 			}
 		},
-		Monitors:          func() []scen.Monitor { return []scen.Monitor{&monitors.C03{}} },
+		Monitors:          func() []scen.Monitor { return []scen.Monitor{&monitors.C03{}, &monitors.C06{}} },
 		NonTrivialCounter: "c03_phase_writes",
 		Gates:             []chkfam.Gate{{"c03_phase_writes", 1000}, {"c03_passes_reaching_later_phase", 100}, {"c03_probe_failures_reported", 100}, {"c03_stopped_at_phase_index_0", 20}, {"c03_stopped_at_phase_index_1", 20}},
 		Rule:              "run = random ObjectSet (1-3 phases plus optional delegated phases, ConfigMaps/Deployments/Widget CRs with Available probes) whose objects' status is driven by a workload actor (ready, not ready, stale observedGeneration, no status) interleaved with reconciles and drift; each rollout pass is checked offline: every create/patch of a phase-k object requires all earlier phases to pass the reference probe evaluation on the states this pass observed; non-trivial = the pass wrote at least one phase object; distinct = distinct step logs",
